@@ -286,7 +286,7 @@ class Scaling(Interp):
         return self.binop(node.op, a, b, node)
 
     def eval_IfExp(self, node, env):
-        d = self.decide(node.test, env)
+        d = self._decide(node.test, env)
         if d is None:
             a = self.eval(node.body, env)
             b = self.eval(node.orelse, env)
